@@ -202,7 +202,7 @@ func c04ExactContribution(e *c04Event) (cnt, sum, sq *big.Rat, representable boo
 			c := rat(e.Count)
 			sum.Mul(sum, c)
 			sq.Mul(sq, c)
-			representable = fits(sum, 53) && fits(sq, 53)
+			representable = fits(sum, 40) && fits(sq, 40) // with denominators ≤ 2^10 the products need < 2^50 units
 			sum.Quo(sum, rat(n))
 			sq.Quo(sq, rat(n))
 		}
@@ -412,6 +412,19 @@ func c04RunValues(r *verifkit.Run, w *verifkit.Worker, n int, trials int) {
 			exact = exact && c04IsDyadic(v.ValueSum) && c04IsDyadic(v.ValueSumSquare)
 		}
 		exact = exact && refSumSq < 1<<40 && refCount < 1<<40 && absSum < 1<<40
+		// The bit-exact class needs more than well-behaved leaves: the event-by-event regrouping adds every EVENT's
+		// counter and contribution in its own order, so each of them (and with the magnitude bounds every partial sum
+		// of at most 160 terms) must be exactly representable: dyadic, denominator ≤ 2^10, magnitude < 2^32.
+		// A counter like 817/7 or a counter/len ratio that does not divide sends the whole case to the tolerance class.
+		for i := range flat {
+			if !exact {
+				break
+			}
+			if _, _, _, rep := c04ExactContribution(&flat[i]); !rep {
+				exact = false
+				w.Count("values.cases.sent_to_tolerance_class_by_an_event", 1)
+			}
+		}
 		// hosts that contributed the extremes / any count (from the events, the finest contributions)
 		minHosts, maxHosts, cntHosts := map[TagUnion]bool{}, map[TagUnion]bool{}, map[TagUnion]bool{}
 		hostSet := map[TagUnion]bool{}
